@@ -301,6 +301,14 @@ FIXED_HISTORIES = [
     ('\\x{a}{a}', ['aop b0 pop 1', 'del b0.a0:0', 'aop b0 ext s:' + enc('{z}') + ',s:' + enc('[w]')]),
     ('\\x{a}{a}', ['aop b0 pop 0', 'str b0 ' + enc('b'), 'aop b0 app s:' + enc('{z}')]),
     ('\\x{a}{b}', ['aop b0 ins 2 g:' + enc('\\x{a}'), 'del b0.a0:0', 'aop b0 app s:' + enc('{z}')]),
+    # an empty string among several pieces (first / middle) with content behind the insertion point
+    ('\\begin{a}\\x\\y\\end{a}', ['ins b0 0 s:-,n:' + enc('\\z{1}'), 'ins b0 1 s:' + enc('P') + ',s:-,s:' + enc('Q'), 'del b0.b0']),
+    ('\\begin{a}\\x\\y\\w\\end{a}', ['rep b0.b0 s:-,n:' + enc('\\q{2}') + ',s:' + enc('T'), 'del b0.b3', 'rep b0.b1 s:-,s:-,n:' + enc('\\x')]),
+    # strings that are LaTeX source are spliced in verbatim, as one text leaf
+    ('\\begin{a}\\x\\end{a}\\x', ['app b0 s:' + enc('\\ref {fig}'), 'ins r 1 s:' + enc('\\begin{x}') + ',s:' + enc('\\textbf a'),
+                                    'rep b0.b0 s:' + enc('\\[') + ',s:' + enc('{'), 'del b0.b2']),
+    # the own argument list taken, edited in place and put back
+    ('\\x{a}[b]{c}\\x{a}[b]{c}', ['aop b0 srev', 'aop b1 same', 'aop b0 spop 1', 'aop b1 sins 1 g:' + enc('\\x{a}'), 'del b1.a1:0']),
 ]
 
 
@@ -405,7 +413,10 @@ def oracle(ctx, seeds, scale):
               'children/descendants of their container and inserted text in its text view. Histories: ALL of length <= 2 over '
               'lib_edit.alphabet on %d tiny documents; %d random histories of 1..%d ops on lib_edit.gen_doc documents '
               '(lib_edit.gen_history: del, rep, ins, app, ren, str, args, 25%% TexArgs operations append/extend/insert/pop/'
-              'remove/reverse/clear/slice/permutation, ~10%% refused ops); %d transplant histories (lib_edit.gen_transplant '
+              'remove/reverse/clear/slice/permutation and the own list put back after nothing/reverse/pop/insert/append on it '
+              'in place, ~10%% refused ops; 30%% of the new plain strings are LaTeX source - lib_edit.SRC_STRS: blank between '
+              'command and group, bare token after a fixed-signature command, unbalanced fragments, lone backslash, comment - '
+              'and must be spliced in verbatim as one text leaf; the empty string occurs among several pieces); %d transplant histories (lib_edit.gen_transplant '
               'without copies: a node taken from inside an argument / group / \\item body of a separately parsed snippet is '
               'appended / inserted / put in place of a node, often next to a textual twin, later steps delete / replace it at '
               'its new place; after every step the snippet document must be what it was, unless the step edits inside the '
